@@ -115,9 +115,9 @@ func runC13(c *Ctx) {
 							"w.c.isServer": {W: 1, Hi: -1}, "final": {W: 1, Hi: -1}, "w.compress": {W: 1, Hi: -1}, "w.c.isWriting": {W: 1, Hi: -1},
 							"len(w.c.writeBuf)": {W: 41, Lo: 14, Hi: 1 << 41}}
 						v := Variant{
-							Name: fmt.Sprintf("%s,%s,final=%d,compress=%d,opcode=%d", map[int64]string{1: "server", 0: "client"}[server], f.name, final, compress, op),
-							Dom:  dom,
-							Bind: map[string]int64{"w.frameType": op, "w.c.isServer": server, "final": final, "w.compress": compress, "w.c.isWriting": 0},
+							Name:   fmt.Sprintf("%s,%s,final=%d,compress=%d,opcode=%d", map[int64]string{1: "server", 0: "client"}[server], f.name, final, compress, op),
+							Dom:    dom,
+							Bind:   map[string]int64{"w.frameType": op, "w.c.isServer": server, "final": final, "w.compress": compress, "w.c.isWriting": 0},
 							Assume: []*abs.Lin{L.Add(abs.LConst(-f.lo)), abs.LConst(f.hi).Sub(L), abs.LAtom("len(w.c.writeBuf)").Sub(abs.LAtom("w.pos"))},
 						}
 						v.Nil = []string{"w.c.writeErr"} // no latched write error
